@@ -271,13 +271,13 @@ PROPS = {
         "test": "TestC17", "binary": "sched-race", "level": "exploration",
         "rule": "the generators of the concurrency-heavy checks are run in a binary built with the Go race detector (and schedule points): exit-path "
                 "cases of C05/C06 (cancellation at generated instants, launch / probe failures), loops of C13, run histories of C14 (overlapping "
-                "runs, twin, re-preparation) preceded by 0-4 concurrent preparations of the same text, provider histories of C12 with delay plans. "
-                "oracle: a race report counts when, for one of the two racing accesses, the first frame outside the Go standard library is a "
+                "runs, twin, re-preparation) preceded by 0-4 concurrent preparations of the same text, provider histories of C12 with delay plans, and pairs of C09's sweep (a canonical workflow with one schedule "
+                "point it passes held for 40-60 ms). oracle: a race report counts when, for one of the two racing accesses, the first frame outside the Go standard library is a "
                 "source file of the repository; reports with an access on a plugin-side goroutine (SDK ATP server, scripted plugin) are ignored "
                 "because that code is in another process in reality. non-trivial = the case has overlapping engine activity (>= 2 steps, a loop, "
                 "overlapping runs or preparations, a concurrent provider round)",
-        "quick": {"cases": 320, "shards": 16, "shrinktime": "20s", "timeout_s": 1500},
-        "thorough": {"cases": 6400, "shards": 16, "shrinktime": "60s", "timeout_s": 3300},
+        "quick": {"cases": 416, "shards": 16, "shrinktime": "20s", "timeout_s": 1500},
+        "thorough": {"cases": 8000, "shards": 16, "shrinktime": "60s", "timeout_s": 3300},
         "assumptions": ["dynamic oracle: silence means no race on the explored executions only",
                         "races whose both accesses are owned by third-party code (pluginsdk schema caches, the SDK's global schema objects) are not attributed to the engine"],
     },
